@@ -23,9 +23,10 @@ concrete matrix type in the driver — with the NumPy results on the zeroth coef
   `U` upper triangular gives `det A = det W · ∏ Uᵢᵢ` — the formula `UTPM.det` evaluates; the LU identity itself is
   C08's `lu_defining_equation`.
 
-* `logdet_through_lu`: for a real matrix with `P L U = A`, `log(det A) = log(c) + Σ log|Uᵢᵢ|` with
-  `c = sign(P) · ∏ sign(Uᵢᵢ)` — the formula `UTPM.logdet` evaluates, pointwise along the curve (so the Taylor
-  coefficients agree by the `log` kernel theorem and the `JetOf` closure of C01).
+* `logdet_through_lu`: for a real matrix with `P L U = A`, `log|det A| = Σ log|Uᵢᵢ|` (the value of
+  `numpy.linalg.slogdet(A)[1]`, determinant of either sign) — the formula `UTPM.logdet` evaluates, pointwise along the
+  curve (so the Taylor coefficients agree by the `log` / `abs` kernel theorems and the `JetOf` closure of C01);
+  `logdet_through_lu_pos`: `= log(det A)` when the determinant is positive.
 
 * `expm_pade_evaluation`, `expm_pade_tables_match_exp`: the even/odd evaluation of `_expm_pade<q>` gives `U + V = N(x)`,
   `V − U = D(x) = N(−x)` with the code's coefficient tables (tied to the code by evaluating `_expm_pade<q>` on 1×1 arguments), and
@@ -72,16 +73,25 @@ theorem det_through_lu {S : Type} [CommRing S] {n : ℕ} (σ : Equiv.Perm (Fin n
     (hU : U.BlockTriangular id) : A.det = (Equiv.Perm.sign σ : ℤ) * ∏ i, U i i :=
   det_of_lu_perm σ L U A h hL hL1 hU
 
-/-- `UTPM.logdet`: `log(det A) = log(sign(P) ∏ sign Uᵢᵢ) + Σ log|Uᵢᵢ|` -/
+/-- `UTPM.logdet` (repaired code: `sum(log(abs(diag U)))`): `log|det A| = Σ log|Uᵢᵢ|` — the value of
+`numpy.linalg.slogdet(A)[1]` — for a determinant of **either sign** -/
 theorem logdet_through_lu {n : ℕ} (σ : Equiv.Perm (Fin n)) (L U A : Matrix (Fin n) (Fin n) ℝ)
     (h : (σ.permMatrix ℝ) * L * U = A) (hL : L.BlockTriangular OrderDual.toDual) (hL1 : ∀ i, L i i = 1)
     (hU : U.BlockTriangular id) (hnz : ∀ i, U i i ≠ 0) :
-    Real.log A.det
-      = Real.log (((Equiv.Perm.sign σ : ℤ) : ℝ) * ∏ i, (SignType.sign (U i i) : ℝ)) + ∑ i, Real.log |U i i| := by
-  rw [det_of_lu_perm σ L U A h hL hL1 hU]
-  have hs : (((Equiv.Perm.sign σ : ℤ)) : ℝ) ≠ 0 := by
+    Real.log |A.det| = ∑ i, Real.log |U i i| := by
+  rw [det_of_lu_perm σ L U A h hL hL1 hU, abs_mul, Finset.abs_prod]
+  have hs : |(((Equiv.Perm.sign σ : ℤ)) : ℝ)| = 1 := by
     rcases Int.units_eq_one_or (Equiv.Perm.sign σ) with e | e <;> simp [e]
-  exact logdet_formula Finset.univ _ hs (fun i => U i i) (fun i _ => hnz i)
+  rw [hs, one_mul, Real.log_prod]
+  intro i _
+  exact abs_ne_zero.mpr (hnz i)
+
+/-- for a positive determinant this is `log(det A)` itself -/
+theorem logdet_through_lu_pos {n : ℕ} (σ : Equiv.Perm (Fin n)) (L U A : Matrix (Fin n) (Fin n) ℝ)
+    (h : (σ.permMatrix ℝ) * L * U = A) (hL : L.BlockTriangular OrderDual.toDual) (hL1 : ∀ i, L i i = 1)
+    (hU : U.BlockTriangular id) (hnz : ∀ i, U i i ≠ 0) (hpos : 0 < A.det) :
+    Real.log A.det = ∑ i, Real.log |U i i| := by
+  rw [← logdet_through_lu σ L U A h hL hL1 hU hnz, abs_of_pos hpos]
 
 /-- constant right-hand side (`_solve_non_UTPM_x`) -/
 theorem solve_const_rhs_spec (a : List R) (a0inv b0 : R) (h0 : coR a 0 * a0inv = 1) (d : Nat) (h : d < a.length) :
